@@ -1,7 +1,11 @@
 import Gms.Driver.Proto
 import Gms.Driver.MemIndexProto
+import Gms.Driver.RowAliasProto
 open Gms.Proto
 
 /-- C15: per statement of an editor-level history (with injected failures): failed?, rows and
-index storage contents afterwards — Impl model (MemIndex) vs Spec (failed ⇒ unchanged). -/
-def main : IO Unit := runPure Gms.MemIndexProto.handle
+index storage contents afterwards — Impl model (MemIndex) vs Spec (failed ⇒ unchanged); per
+statement of an INSERT / ON DUPLICATE KEY UPDATE history: failed?, rows afterwards — memory-level
+Impl model (RowAlias: slices over backing arrays) vs value-level Spec. -/
+def main : IO Unit :=
+  runPure (fun p => if Gms.RowAliasProto.isOdku p then Gms.RowAliasProto.handle p else Gms.MemIndexProto.handle p)
